@@ -18,14 +18,14 @@ import (
 // ---------------------------------------------------------------- event log (boundary events)
 
 type logEv struct {
-	Seq  int    `json:"seq"`
-	End  string `json:"end"`  // "S" sender side, "R" receiver side
-	Kind string `json:"kind"` // send recv(delivered) senderr recverr open read close notify hasher return cancel teardown
-	Typ  string `json:"typ,omitempty"`
-	ID   uint32 `json:"id"`
-	Path string `json:"path,omitempty"` // hex
-	N    int    `json:"n,omitempty"`    // payload length
-	Sha  string `json:"sha,omitempty"`  // payload sha256 (hex, first 16 bytes)
+	Seq  int                    `json:"seq"`
+	End  string                 `json:"end"`  // "S" sender side, "R" receiver side
+	Kind string                 `json:"kind"` // send recv(delivered) senderr recverr open read close notify hasher return cancel teardown
+	Typ  string                 `json:"typ,omitempty"`
+	ID   uint32                 `json:"id"`
+	Path string                 `json:"path,omitempty"` // hex
+	N    int                    `json:"n,omitempty"`    // payload length
+	Sha  string                 `json:"sha,omitempty"`  // payload sha256 (hex, first 16 bytes)
 	Stat map[string]interface{} `json:"stat,omitempty"`
 }
 
@@ -76,9 +76,9 @@ var errPeerGone = errors.New("verif: peer has gone away")
 var errInjected = errors.New("verif: injected stream fault")
 
 type streamCfg struct {
-	Cap       int   // channel capacity per direction
-	DelayUS   int   // max random delay per call (microseconds); 0 = none
-	Window    int   // overlap-detector hold window: number of Gosched yields while "in call"
+	Cap       int // channel capacity per direction
+	DelayUS   int // max random delay per call (microseconds); 0 = none
+	Window    int // overlap-detector hold window: number of Gosched yields while "in call"
 	Seed      int64
 	FailSendS int // n-th SendMsg on the sender end fails (1-based; 0 = never)
 	FailRecvS int
@@ -118,6 +118,8 @@ type endpoint struct {
 	rng      *rand.Rand
 	outOnce  sync.Once
 	peer     *endpoint
+	returned int32
+	late     int32         // stream calls made after the function using this end returned
 	gone     chan struct{} // closed when the function using this end has returned: the peer's sends fail from then on
 	// hook called with every packet delivered to this end (after unmarshal), may block (gates)
 	onRecv func(*types.Packet)
@@ -138,7 +140,12 @@ func newPipe(ctx context.Context, cfg *streamCfg, log *evLog) (*endpoint, *endpo
 
 func (e *endpoint) Context() context.Context { return e.ctx }
 
-func (e *endpoint) closeSend() { e.outOnce.Do(func() { close(e.out); close(e.gone) }) }
+// closeSend marks the function using this end as returned: the peer reads EOF once the buffered packets
+// are drained, the peer's sends fail, and any later call on this end is counted as a late call (a goroutine
+// of the returned function is still alive).
+func (e *endpoint) closeSend() {
+	e.outOnce.Do(func() { atomic.StoreInt32(&e.returned, 1); close(e.gone) })
+}
 
 func (e *endpoint) pause() {
 	if e.cfg.DelayUS > 0 {
@@ -164,6 +171,10 @@ func (e *endpoint) SendMsg(m interface{}) error {
 	}
 	defer atomic.AddInt32(&e.inSend, -1)
 	n := int(atomic.AddInt32(&e.sendN, 1))
+	if atomic.LoadInt32(&e.returned) != 0 {
+		atomic.AddInt32(&e.late, 1)
+		return errTorn
+	}
 	e.pause()
 	select {
 	case <-e.sh.torn:
@@ -202,25 +213,34 @@ func (e *endpoint) RecvMsg(m interface{}) error {
 	}
 	defer atomic.AddInt32(&e.inRecv, -1)
 	n := int(atomic.AddInt32(&e.recvN, 1))
+	if atomic.LoadInt32(&e.returned) != 0 {
+		atomic.AddInt32(&e.late, 1)
+		return errTorn
+	}
 	e.pause()
 	if e.failRecv != 0 && n >= e.failRecv {
 		e.sh.log.add(logEv{End: e.name, Kind: "recverr", N: n})
 		return errInjected
 	}
+	var dt []byte
 	select {
 	case <-e.sh.torn:
 		return errTorn
-	case dt, ok := <-e.in:
-		if !ok {
+	case dt = <-e.in:
+	case <-e.peer.gone:
+		// peer returned: deliver what is still buffered, then EOF
+		select {
+		case dt = <-e.in:
+		default:
 			return io.EOF
 		}
-		if err := p.Unmarshal(dt); err != nil {
-			return err
-		}
-		e.sh.log.add(pktEv(e.name, "recv", p))
-		if e.onRecv != nil {
-			e.onRecv(p)
-		}
-		return nil
 	}
+	if err := p.Unmarshal(dt); err != nil {
+		return err
+	}
+	e.sh.log.add(pktEv(e.name, "recv", p))
+	if e.onRecv != nil {
+		e.onRecv(p)
+	}
+	return nil
 }
